@@ -33,8 +33,12 @@ class ReachLeg(T.TravLeg):
                 continue
             lst = a[1]
             pre_ok = not (uni is not None and (len(snap["uverts"][uni]) == 0 or st not in snap["uverts"][uni]))
+            if not pre_ok and len(snap["uverts"][uni]) == 0:
+                continue            # an empty universe: bft answers an empty listing, the depth-first forms refuse (tie)
             if not pre_ok:
-                continue
+                # "through vertices belonging to the universe": a start vertex that is no member is refused (ValueError, as
+                # documented for every traversal) - a listing from it reaches what the statement excludes
+                return [f"{t} listed {lst} from start {st}, which is not a member of universe {uni} (members {snap['uverts'][uni]}), for {q}"]
             if len(set(lst)) != len(lst):
                 return [f"{t} lists a vertex twice: {lst} for {q}"]
             by_setting.setdefault((uni, st, d, u, fv, fr), {})[t] = lst
